@@ -110,6 +110,7 @@ def run(R):
         os.remove(trace)
     rcr, rout = vlib.sh([runner, "conc"], stdin=text, timeout=1500)
     lin_ok = lin_fail = face_ok = 0
+    anomalies = []
     fails = []
     face_fails = []
     for l in rout.split("\n"):
@@ -125,12 +126,12 @@ def run(R):
                 lin_fail += 1
                 fails.append(l)
         elif l.startswith("ANOMALY"):
-            R.oracle_failure("anomaly:" + " ".join(l.split(" ")[2:6]), "implementation-side anomaly during concurrent operations: " + l[:300], dict(seed=R.seed, line=l))
+            anomalies.append(l)
         elif l.startswith("BADLINE"):
             R.proof_problems.append("conc runner could not parse: " + l[:200])
     if "DONE" not in rout:
         R.proof_problems.append("conc runner did not finish: " + rout[-300:])
-    if harness_failed and "ANOMALY" not in rout:
+    if harness_failed and not anomalies:
         R.oracle_failure("harness-failed:" + str(rc), "the concurrency harness failed (panic, deadlock watchdog or timeout)", dict(seed=R.seed, output=out[-4000:]))
     # self-test of the history checker: stored bad histories must be rejected, stored good ones accepted
     import glob
@@ -161,6 +162,10 @@ def run(R):
             hist[rid] = cur
             if len(kinds) >= 3 and len(gors) >= 2:
                 distinct.add(hashlib.md5("\n".join(x for x in cur if x.startswith("H ")).encode()).hexdigest())
+    for l in anomalies[:3]:
+        rnd = l.split(" ")[1].split(":")[0]
+        R.oracle_failure("anomaly:" + " ".join(l.split(" ")[2:6]), "implementation-side anomaly during concurrent operations: " + l[:400],
+                         dict(seed=R.seed, line=l, history=hist.get(rnd, [])))
     for l in fails[:3]:
         rnd = l.split(" ")[1].split(":")[0]
         forced = rnd.startswith("g")
